@@ -399,6 +399,11 @@ class Runner:
         ga = self.ga_view(list(v) if full else [x for x in addressed if x in v])
         for x, a in ga.items():
             if v[x] != a:
+                if v[x] is not None and a is not None and v[x][:2] == a[:2]:
+                    # round 8 (C04O): only the usage mask differs.  The gates are judged against the mask the STORE holds
+                    # (the integer the client supplied); the difference itself is reported as a broken correspondence
+                    self.mask_mismatch.append((x, a[2], v[x][2]))
+                    continue
                 raise RuntimeError('GetAttributes and the tables differ for %d: %r vs %r' % (x, a, v[x]))
         return v
 
@@ -430,6 +435,7 @@ class Runner:
         self.last = base - 1
         self.steps = []
         self.before = {}
+        self.mask_mismatch = []
         self.version = (1, 2)
         real = [i for i, op in enumerate(ops) if op[0] not in PSEUDO]
         n = 0
@@ -457,7 +463,7 @@ class Runner:
             for st in self.steps:
                 st.setdefault('src_end', n)
         self.base = self.last + 1
-        return {'base': base, 'steps': self.steps}
+        return {'base': base, 'steps': self.steps, 'mask_mismatch': self.mask_mismatch[:5]}
 
     def new_uids(self, op, item):
         if not kdrv.ok(item):
@@ -1213,6 +1219,10 @@ def run(ctx):
         if 'error' in res:
             ctx.disagreement('histories', {'history': [list(o) for o in h], 'harness_error': res['error']})
             continue
+        if res.get('mask_mismatch'):
+            ctx.disagreement('histories', {'history': [list(o) for o in h],
+                                           'getattributes_vs_store': ['object %d: GetAttributes reports usage mask %#x, the store holds %#x' % tuple(m)
+                                                                      for m in res['mask_mismatch']]})
         cases.append(coq_case(res))
         index.append(i)
         nontrivial = False
